@@ -638,6 +638,12 @@ fn run_case(args: &Args, case_idx: u64, corpus: &Corpus, out: &mut Out, float_in
     let mut rng = Rng::derive(args.seed, args.shard, case_idx);
     let cfg = gen_cfg(&mut rng);
     let writer = RecMake::default();
+    // one case in eight writes to a sink that accepts only a prefix per `write` call
+    let mut wrng = Rng::derive(args.seed ^ 0x5407, args.shard, case_idx);
+    if wrng.chance(1, 8) {
+        writer.1.store(*wrng.pick(&[1usize, 7, 64, 200]), std::sync::atomic::Ordering::Relaxed);
+        out.count("cases_with_a_short_writing_sink", 1);
+    }
     let dispatch = build_dispatch(&cfg, writer.clone());
     let t = std::thread::current();
     let th = ThreadInfo { name: t.name().map(String::from), id_debug: format!("{:?}", t.id()) };
